@@ -22,6 +22,9 @@ CHECKS = {
  "C06": dict(technique="two-way differential PBT against a reference validator (26 June-2018 rules) + per-rule attribution + metamorphic verdict invariance",
              text="Valid-by-construction documents must validate; mutated documents are judged by a reference validator written from the specification and the verdicts must agree in both directions; a single broken rule must be reported by that rule's checker alone; nine validity-preserving transformations must not change the verdict.",
              note="Trusted: vlib/ref/validate.py (goldens), transformation code in vlib/gen/metamorph.py. A rule violation family the mutators never produce stays unexamined (per-rule counters in the evidence).", ref="3/C06"),
+ "C07": dict(technique="PBT of argument coercion: conformance predicate, reference coercion model, rejection of structurally wrong values, literal-vs-variable route equivalence; exhaustive Int boundary grid (thorough)",
+             text="A recording probe field and FIELD directive take an argument of a generated input type; natural, boundary and structurally wrong values are supplied inline, through variables (with/without defaults, nullable into non-null) and nested in literals, in provided/omitted/null modes; received kwargs must conform, equal the reference coercion, wrong values must be rejected before the resolver runs, and both routes must agree. coerce_value and value_from_ast are driven directly with the same cases.",
+             note="Trusted: classify/conforms/coerce_ref in props/c07.py and vlib/gen/schema.py. Scalar-for-scalar leniency is deliberately not asserted.", ref="3/C07"),
 }
 ALL = ["C%02d" % i for i in range(1, 21)]
 NA_REASON = "check not built yet (work in progress; see DESIGN.md section 3 for the planned design)"
